@@ -120,3 +120,11 @@ Fixpoint nonedge_loop (data : list pt) (theta : Q) (t : qt) (ns : list nat) (sq 
       end
     end
   end.
+
+(* QuadTree(Y, N), the constructor tsne.hpp uses: root box from the data (auto_root; slack = 1e-5 in the
+   code), then fill(N).  None: N = 0 (the C++ divides 0/0 and inserts nothing). *)
+Definition tsne_tree (slack : Q) (fuel : nat) (data : list pt) (N : nat) : option res :=
+  match auto_root slack data N with
+  | None => None
+  | Some c => Some (fill true fuel data N (init c))
+  end.
